@@ -529,12 +529,23 @@ Proof.
   rewrite N.add_comm, N.mod_add by discriminate. now apply N.mod_small.
 Qed.
 
-Local Opaque N.add N.modulo S_IFREG perm_mask.
+Lemma kill_sugid_small m : (m < sugid_free)%N -> kill_sugid m = m.
+Proof.
+  intros H. unfold sugid_free in H. unfold kill_sugid.
+  rewrite (N.div_small m 2048) by lia. cbn [N.modulo N.eqb].
+  change ((0 mod 2 =? 1)%N) with false. cbv iota.
+  rewrite (N.div_small m 1024) by lia. reflexivity.
+Qed.
+
+Lemma sugid_free_perm m : (m < sugid_free)%N -> (m < perm_mask)%N.
+Proof. unfold sugid_free, perm_mask. lia. Qed.
+
+Local Opaque N.add N.modulo N.div S_IFREG perm_mask kill_sugid sugid_free.
 
 Section Mode.
 Variables (v : variant) (e : env) (tmp : path) (chunks : list content) (c0 : content) (m g : N).
 Hypothesis tmp_ne : tmp <> Target.
-Hypothesis Hmode : (m < perm_mask)%N.
+Hypothesis Hmode : (m < sugid_free)%N.
 Let data := concat chunks.
 
 (* which injected faults the statement tolerates: none on the unchanged code; on the repaired code
@@ -588,7 +599,7 @@ Proof.
       cbn in Hs. inversion Hs; subst f' l'. cbn in Hr. congruence.
     + unfold sys_chmod in Hs. rewrite Hx in Hs. cbn in Hs. inversion Hs; subst f' l'.
       split; [now rewrite upd_other by congruence|].
-      eexists. rewrite upd_same. split; [reflexivity|]. cbn. now apply st_mode_perm.
+      eexists. rewrite upd_same. split; [reflexivity|]. cbn. apply st_mode_perm. now apply sugid_free_perm.
   - (* IChown *)
     split; [|discriminate]. intros Hr. destruct HM as [HT (x & Hx & Hxm)].
     destruct (pst l) as [[m' g']|]; [|cbn in Hs; inversion Hs; subst f' l'; eauto].
@@ -596,7 +607,7 @@ Proof.
     unfold sys_chown in Hs. rewrite Hx in Hs.
     destruct (may_chown e g'); cbn in Hs; inversion Hs; subst f' l'; [|eauto].
     split; [now rewrite upd_other by congruence|].
-    eexists. rewrite upd_same. split; [reflexivity|]. exact Hxm.
+    eexists. rewrite upd_same. split; [reflexivity|]. cbn [fmode]. rewrite Hxm. now apply kill_sugid_small.
   - (* IRename *)
     split; [intros _; exact I|]. intros _ Hr. destruct HM as [HT (x & Hx & Hxm)].
     unfold content_of in HI. rewrite Hx in HI. cbn in HI. inversion HI as [Hdata].
@@ -635,7 +646,7 @@ Proof. intros H _. exact H. Qed.
 
 (* after a call that returned normally the new file has the original's permission bits *)
 Theorem mode_preserved_gen : forall v e pid chunks c0 m g f xs f' l',
-  (m < perm_mask)%N -> f Target = Some (mkFile c0 m g) ->
+  (m < sugid_free)%N -> f Target = Some (mkFile c0 m g) ->
   map fst xs = prog chunks -> Forall (fun x => fault_ok v (snd x)) xs ->
   atomic_write v e pid f xs = (f', l') ->
   (raised l' = false /\ exists x, f' Target = Some x /\ fcontent x = concat chunks /\ fmode x = m) \/
@@ -693,7 +704,7 @@ Proof.
 Qed.
 
 Lemma mode_preserved : forall v e pid chunks c0 m g f,
-  (m < perm_mask)%N -> f Target = Some (mkFile c0 m g) ->
+  (m < sugid_free)%N -> f Target = Some (mkFile c0 m g) ->
   let r := atomic_write v e pid f (nofault (prog chunks)) in
   raised (snd r) = false /\
   exists x, fst r Target = Some x /\ fcontent x = concat chunks /\ fmode x = m.
@@ -706,7 +717,7 @@ Proof.
 Qed.
 
 Lemma mode_preserved_under_fault : forall e pid chunks c0 m g f xs,
-  (m < perm_mask)%N -> f Target = Some (mkFile c0 m g) ->
+  (m < sugid_free)%N -> f Target = Some (mkFile c0 m g) ->
   map fst xs = prog chunks -> Forall (fun x => snd x <> FaultENOENT) xs ->
   let r := atomic_write Fixed e pid f xs in
   (raised (snd r) = false /\ exists x, fst r Target = Some x /\ fcontent x = concat chunks /\ fmode x = m) \/
